@@ -2,7 +2,7 @@
    This is what the OCaml driver calls; each command evaluates model functions on a case that the
    Python harness also runs on the rebuilt implementation. *)
 From OptreeModel Require Export Wire Flatten Unflatten Spec Ops Registry Pickle Accessor.
-From OptreeModel Require Ravel Dataclass Typing Faults Depth Alias Conc ArraySpec Construct Walk PrefixErr.
+From OptreeModel Require Ravel Dataclass Typing Faults Depth Alias Conc ArraySpec Construct Walk PrefixErr PrefixArr.
 
 Definition bad : sexp := SL [SI 2].   (* undecodable input: a harness error, never a verdict *)
 
@@ -67,7 +67,10 @@ Definition cmd_pair (c1 : cfg) (o1 : obj) (c2 : cfg) (o2 : obj) : sexp :=
            enc_res enc_sspec (ss_broadcast s1 s2);
            enc_res enc_sspec (ss_broadcast s2 s1);
            enc_res enc_sspec (ss_compose s1 s2);
-           enc_res enc_sspec (ss_transform_leaves s1 (Some s2)) ]
+           enc_res enc_sspec (ss_transform_leaves s1 (Some s2));
+           (* the array-level IsPrefix loop (PrefixArr.v), run on the two node arrays themselves *)
+           enc_res enc_bool (PrefixArr.arr_is_prefix sp1 sp2 false); enc_res enc_bool (PrefixArr.arr_is_prefix sp1 sp2 true);
+           enc_res enc_bool (PrefixArr.arr_is_prefix sp2 sp1 false); enc_res enc_bool (PrefixArr.arr_is_prefix sp2 sp1 true) ]
     | _, _ => SL [SI 4]
     end
   | _, _ => SL [SI 5]     (* one of the trees does not flatten: not a case for this command *)
